@@ -107,15 +107,14 @@ Proof.
     destruct (lookup_engine EES engs); [discriminate | reflexivity].
 Qed.
 
-Lemma flag_ok_all f :
-  f <> FDynamicImport -> f <> FDecorators -> f <> FImportDefer -> f <> FImportSource -> flag_ok f = true.
-Proof. intros H1 H2 H3 H4. destruct f; try (vm_compute; reflexivity); contradiction. Qed.
+Lemma flag_ok_all f : f <> FDynamicImport -> flag_ok f = true.
+Proof. intros H1. destruct f; try (vm_compute; reflexivity); contradiction. Qed.
 
 Lemma es_target_flags_newer_l :
-  forall f y, f <> FDynamicImport -> f <> FDecorators -> f <> FImportDefer -> f <> FImportSource ->
+  forall f y, f <> FDynamicImport ->
     newer_than y f = true -> In f (unsupported_list (es_constraint y)).
 Proof.
-  intros f y H1 H2 H3 H4 Hn. apply flag_ok_sound; [apply flag_ok_all; assumption | | assumption].
+  intros f y H1 Hn. apply flag_ok_sound; [apply flag_ok_all; assumption | | assumption].
   intro E. subst f. vm_compute in Hn. discriminate.
 Qed.
 
@@ -340,4 +339,85 @@ Proof.
   apply existsb_exists in Ex as [[k v] [Hk Hv]]. cbn [fst snd] in Hv.
   apply andb_true_iff in Hv as [Hv1 Hv2]. apply feature_eqb_eq in Hv1. subst k.
   rewrite (Hall v Hk) in Hv2. discriminate.
+Qed.
+
+(* ---------- exactly which rows deviate from ECMA-262, and how ---------- *)
+
+(* the syntax features whose ES column differs from the standard's edition *)
+Definition es_year_deviations : list feature := filter (fun f => negb (agrees_with_ecma f)) all_features.
+(* ... those where the table is EARLIER than the standard (newer syntax can pass a lower target) *)
+Definition es_year_unsafe_deviations : list feature := filter (fun f => negb (not_earlier_than_ecma f)) all_features.
+(* enum entries whose row has no engine at all: unsupported for EVERY non-empty target
+   (InlineScript is skipped by the loop and is purely user-specified) *)
+Definition features_with_empty_row : list feature :=
+  filter (fun f => match lookup_feature f jsTable with Some [] => true | _ => false end) all_features.
+
+Lemma es_year_deviations_exact_l :
+  es_year_deviations = [FDynamicImport; FImportAttributes]
+  /\ es_year_unsafe_deviations = [FDynamicImport]
+  /\ table_es_year FDynamicImport = Some 2015 /\ ecma_edition FDynamicImport = Ed 2020
+  /\ table_es_year FImportAttributes = None /\ ecma_edition FImportAttributes = Ed 2025
+  /\ features_with_empty_row = [FDecorators; FImportDefer; FImportSource; FInlineScript]
+  /\ length jsTable = length all_features.
+Proof. vm_compute. repeat split; reflexivity. Qed.
+
+(* for every other feature and every ES year the table's verdict IS the standard's:
+   unsupported(ES y) contains f iff f is newer than y *)
+Definition row_matches_ecma (row : feature * list (engine * list vrange)) : bool :=
+  match ecma_edition (fst row) with
+  | Ed e => match lookup_engine EES (snd row) with
+            | Some [((a, 0, 0), (0, 0, 0))] => a =? e
+            | _ => false
+            end
+  | NotInEcma => match lookup_engine EES (snd row) with None => true | Some _ => false end
+  | NotSyntax => true
+  end.
+
+Lemma rows_match_ecma :
+  forallb (fun row => existsb (feature_eqb (fst row)) es_year_deviations || row_matches_ecma row) jsTable = true.
+Proof. vm_compute. reflexivity. Qed.
+
+Lemma es_year_unsupported_single a y :
+  negb (isVersionSupported [((a, 0, 0), (0, 0, 0))] (mkSemver [y] false)) = (y <? a).
+Proof.
+  cbn [isVersionSupported ver_is_zero]. unfold compareVersions, part. cbn [sv_parts sv_pre nth].
+  rewrite !andb_false_r. cbn [Z.eqb orb andb].
+  destruct (Z.eq_dec a y) as [->|Hne].
+  - rewrite Z.sub_diag. cbn. rewrite Z.ltb_irrefl. reflexivity.
+  - assert (a - y =? 0 = false) as H0 by lia. rewrite !H0.
+    destruct (a - y <=? 0) eqn:E1; destruct (y <? a) eqn:E2; cbn; try reflexivity; lia.
+Qed.
+
+Lemma es_unsupported_iff_newer_l f y :
+  In f (map fst jsTable) -> ~ In f es_year_deviations -> ecma_edition f <> NotSyntax ->
+  (In f (unsupported_list (es_constraint y)) <-> newer_than y f = true).
+Proof.
+  intros Hrow Hdev Hsyn.
+  assert (Hni : f <> FInlineScript) by (intro; subst f; vm_compute in Hsyn; congruence).
+  assert (Hnd : existsb (feature_eqb f) es_year_deviations = false).
+  { destruct (existsb (feature_eqb f) es_year_deviations) eqn:E; [|reflexivity].
+    exfalso. apply Hdev. apply existsb_feature_In. exact E. }
+  assert (Hrows : forall engs, In (f, engs) jsTable -> row_matches_ecma (f, engs) = true).
+  { intros engs Hin. pose proof rows_match_ecma as H. rewrite forallb_forall in H. specialize (H _ Hin).
+    cbn [fst] in H. rewrite Hnd in H. exact H. }
+  unfold unsupported_list. rewrite unsupported_in_spec. unfold newer_than. split.
+  - intros [engs [Hin [_ Hu]]]. specialize (Hrows engs Hin). unfold row_matches_ecma in Hrows. cbn [fst snd] in Hrows.
+    rewrite feature_unsupported_es in Hu.
+    destruct (ecma_edition f) as [e| |]; [|reflexivity|congruence].
+    destruct (lookup_engine EES engs) as [r|]; [|discriminate].
+    destruct r as [|[[[a b] c] [[a' b'] c']] r']; [discriminate|].
+    destruct b; try discriminate. destruct c; try discriminate. destruct a'; try discriminate.
+    destruct b'; try discriminate. destruct c'; try discriminate. destruct r'; [|discriminate].
+    apply Z.eqb_eq in Hrows. subst a. rewrite es_year_unsupported_single in Hu. exact Hu.
+  - intro Hn. apply in_map_iff in Hrow as [[f' engs] [E Hin]]. cbn in E. subst f'.
+    exists engs. split; [exact Hin|]. split; [exact Hni|].
+    specialize (Hrows engs Hin). unfold row_matches_ecma in Hrows. cbn [fst snd] in Hrows.
+    rewrite feature_unsupported_es.
+    destruct (ecma_edition f) as [e| |]; [| |congruence].
+    + destruct (lookup_engine EES engs) as [r|]; [|discriminate].
+      destruct r as [|[[[a b] c] [[a' b'] c']] r']; [discriminate|].
+      destruct b; try discriminate. destruct c; try discriminate. destruct a'; try discriminate.
+      destruct b'; try discriminate. destruct c'; try discriminate. destruct r'; [|discriminate].
+      apply Z.eqb_eq in Hrows. subst a. rewrite es_year_unsupported_single. exact Hn.
+    + destruct (lookup_engine EES engs); [discriminate | reflexivity].
 Qed.
